@@ -158,6 +158,53 @@ add("C08", "exploration",
     "finite differences with two step sizes (self-check 1e-7); bound 2e-6 "
     "relative", "DESIGN.md 3/C08")
 
+add("C10", "exploration",
+    "runtime reference-model monitors (per-site / dense chain), fresh-"
+    "interpreter execution-mode runs, forced-schedule monitor with logged "
+    "completion orders",
+    "PT-TEBD results are compared with per-site computations and the exact "
+    "propagator of the full Liouvillian wherever its own splitting is exact "
+    "(uncoupled chains with none/ancilla/PT-TEMPO environments, two-site "
+    "chains, commuting-gate chains), every recorded subset (also "
+    "non-contiguous) is checked for partial-trace consistency and norm one; "
+    "the three execution modes run in fresh interpreters importing only "
+    "oqupy; a turnstile forces each of the 3! completion orders of a layer's "
+    "gates in the thread pool (staggered delays in the process pool) and "
+    "the observed orders are read from an O_APPEND log.",
+    "schedules beyond one layer of <=3 gates and races inside a gate are "
+    "not driven; an order that was not realised counts as not covered",
+    "DESIGN.md 3/C10")
+add("C14", "fault_enumeration",
+    "history monitor (exhaustive bounded call sequences) + failpoint "
+    "enumeration in user callables with retry",
+    "Every sequence of <=3 (thorough <=4) compute targets over a 4-step grid "
+    "is run for Tempo (full memory and across the dkmax boundary), "
+    "MeanFieldTempo and PtTebd with interleaved get_dynamics and compared "
+    "with the single call; PtTempo/GibbsTempo idempotence; PT-TEBD restart "
+    "from the exported chain state at every step with controls around the "
+    "restart point; a fault is raised at every call index of H, gamma, A, "
+    "H(t,a), the field equation (and sampled indices of a correlation "
+    "function) and the compute call is repeated: identical dynamics or an "
+    "exception again.",
+    "split and single runs perform the same floating-point operations "
+    "(1e-11); correlation-function fault indices are sampled",
+    "DESIGN.md 3/C14")
+add("C16", "exploration",
+    "round-trip identity monitor (export -> import, two generations, both "
+    "types) + differential consumers + gauge-invariant comparison of "
+    "file-backed PT-TEMPO",
+    "Hand-built (ancilla), random and PT-TEMPO process tensors of length "
+    "1..8, bond 1..9, rank 3/4, with and without dt/transforms/names/caps "
+    "are exported and re-imported as 'file' and 'simple' (twice); "
+    "attributes, raw and transformed tensors, caps, bond dimensions and the "
+    "results of compute_dynamics, correlations, gradient and PT-TEBD are "
+    "compared with the original; file-backed PT-TEMPO against the in-memory "
+    "computation (tensor-wise within one run, gauge-invariantly across "
+    "runs); overwrite semantics.",
+    "two separate PT-TEMPO runs are not tensor-wise identical (singular "
+    "vector gauge), so cross-run identity is decided on gauge-invariant "
+    "functionals and consumer results", "DESIGN.md 3/C16")
+
 NOT_APPLICABLE = []
 
 
